@@ -180,7 +180,8 @@ class FlowRowModel(ParserModel):
             return basic_header_dict[header]
 
         if header == "message_text":
-            return row_type_to_main_arg[row["type"]]
+            # The cell is looked up as the row parser reads it: stripped
+            return row_type_to_main_arg[row["type"].strip()]
 
         return header
 
